@@ -8,6 +8,9 @@ use shuttle::scheduler::{Schedule, Scheduler, Task, TaskId};
 /// consecutive picks of one task (while others could run) before the PCT mode demotes it
 const PCT_FAIRNESS: u32 = 24;
 
+/// trace entry that is not a task id: the clock was warped to the next wake-up before this decision
+pub const WARP_MARK: u16 = u16::MAX;
+
 /// panic payload that ends a simulated process (see `next_task`)
 pub struct StopRun;
 
@@ -97,8 +100,13 @@ fn choose(st: &mut RunState, cands: &[u32], current: Option<u32>, is_yielding: b
             Some(b)
         }
         Mode::Replay { strict } => {
-            let want = st.replay.get(st.replay_pos).copied();
+            let mut want = st.replay.get(st.replay_pos).copied();
             st.replay_pos += 1;
+            while want == Some(WARP_MARK) {
+                // a warp that could not be applied here (tolerant replay of an edited trace)
+                want = st.replay.get(st.replay_pos).copied();
+                st.replay_pos += 1;
+            }
             match want {
                 Some(w) if cands.contains(&(w as u32)) => Some(w as u32),
                 _ => {
@@ -165,6 +173,39 @@ impl Scheduler for SimScheduler {
                 }
             }
             let current = current.map(|c| usize::from(c) as u32);
+            // ---- time warp: while some task sleeps with a finite deadline, the clock may
+            // jump to that deadline although other tasks are runnable (they simply got no
+            // processor time in between - a legal execution). Without it a busy-waiting
+            // task would have to be scheduled once per tick of a long virtual delay, and
+            // long timeouts would be out of reach. Warps are part of the recorded trace.
+            {
+                let mut next_wake = u64::MAX;
+                for t in runnable {
+                    let w = st.wake.get(tid(t) as usize).copied().unwrap_or(0);
+                    if w > st.now && w != crate::timed::FOREVER {
+                        next_wake = next_wake.min(w);
+                    }
+                }
+                let warp = match st.mode {
+                    Mode::Replay { .. } => {
+                        if st.replay.get(st.replay_pos).copied() == Some(WARP_MARK) {
+                            st.replay_pos += 1;
+                            true
+                        } else {
+                            false
+                        }
+                    }
+                    _ => next_wake != u64::MAX && st.since_jump >= 48 && st.rng.below(8) == 0,
+                };
+                if warp && next_wake != u64::MAX {
+                    st.now = next_wake;
+                    st.time_warps += 1;
+                    st.since_jump = 0;
+                    st.trace.push(WARP_MARK);
+                } else {
+                    st.since_jump += 1;
+                }
+            }
             let mut cands: Vec<u32> = Vec::with_capacity(runnable.len());
             let now = st.now;
             for t in runnable {
@@ -182,8 +223,14 @@ impl Scheduler for SimScheduler {
                     let w = st.wake.get(tid(t) as usize).copied().unwrap_or(0);
                     earliest = earliest.min(w);
                 }
+                if earliest == crate::timed::FOREVER {
+                    // only tasks that wait without a timeout are left
+                    st.stop = Some(StopReason::Deadlock);
+                    return None;
+                }
                 st.now = earliest;
                 st.time_jumps += 1;
+                st.since_jump = 0;
                 for t in runnable {
                     let id = tid(t);
                     if st.wake.get(id as usize).copied().unwrap_or(0) <= st.now {
